@@ -136,6 +136,42 @@ def full_steps_expr(case_shape, sc, out, steps, exact, tol=1e-9, scale=4):
             + "".join(binds) + "(" + " && ".join(parts) + ")%bool)")
 
 
+def T9_lit(shape, arr9) -> str:
+    nx, ny, nz = shape
+    return f"(T9_of K {nx} {ny} {nz} {qlit(0)} {lst([l3(arr9[c], qlit) for c in range(9)])})"
+
+
+def lossy_tier(shape, t9, d3, sig9) -> str:
+    """option (T9 K * T9 K): Some (tensor, conductivity tensor) when the implementation takes the full-anisotropic branch with a conductivity"""
+    if t9 is None:
+        return "None"
+    zero = [[[["0x0p+0"] * shape[2] for _ in range(shape[1])] for _ in range(shape[0])] for _ in range(9)]
+    return f"(Some ({T9_lit(shape, t9)}, {T9_lit(shape, sig9 if sig9 is not None else zero)}))"
+
+
+def lossy_steps_expr(case_shape, sc, out, steps, tol=1e-9, scale=4):
+    """forward steps of the conductive 9-component tiers (model/YeeFull.v forward_lossyX); always compared to `tol` (the 3x3 solves are not dyadic)"""
+    nx, ny, nz = case_shape
+    cmp_ = f"fields_close {qlit(tol)} {qlit(scale)}"
+    ids, binds = {}, []
+    def ref(st):
+        if id(st) not in ids:
+            n = len(ids)
+            ids[id(st)] = n
+            binds.append(f"let fe{n} := {fields_lit(st['E'])} in let fh{n} := {fields_lit(st['H'])} in ")
+        return ids[id(st)]
+    def v3(name):
+        return f"(V3_of K {nx} {ny} {nz} (nth 0 {name} []) (nth 1 {name} []) (nth 2 {name} []))"
+    parts = []
+    for a, b in steps:
+        ia, ib = ref(a), ref(b)
+        parts.append(f"(let s := forward_lossyX K sc te tm (mkSt (K:=K) {a['t']} {v3(f'fe{ia}')} {v3(f'fh{ia}')} [] []) in (Nat.eqb (tstep s) {b['t']}) && "
+                     f"({cmp_} (V3_tab K {nx} {ny} {nz} (fE s)) fe{ib}) && ({cmp_} (V3_tab K {nx} {ny} {nz} (fH s)) fh{ib}))")
+    return (f"(let sc := {sc} in let te := {lossy_tier(case_shape, out.get('ieps9'), None, out.get('sigE9'))} in "
+            f"let tm := {lossy_tier(case_shape, out.get('imu9'), None, out.get('sigH9'))} in "
+            + "".join(binds) + "(" + " && ".join(parts) + ")%bool)")
+
+
 def inj_term(shape, injE, injH) -> str:
     """oracle source injections: lists over time steps of comp-major arrays"""
     e = lst([V3_of(shape, a) for a in injE])
